@@ -11,6 +11,42 @@ Ltac py_open := intros; repeat autounfold with pygen in *;
   unfold is_feasible, is_exhaustive, budget_allocations, is_trivial in *.
 Ltac py_gen := solve [ py_open; py_auto ].
 
+(* max_budget_allocation_cardinality written with enumerate + early return, compared with [mc2_step] under the
+   weaker relation [mc2_rel] (first over projects sorted by cost, then over the sorted costs) *)
+Ltac py_mc2_weak_with F L s0 G t0 :=
+  let H := fresh "Hrel" in
+  assert (H : mc2_rel (fold_left F L s0) (fold_left G L t0));
+  [ apply (fold_left_rel mc2_rel F G L s0 t0);
+    [ intros [r1 c1] [r2 c2] x [H1 H2]; cbn [fst snd] in *; unfold mc2_rel; cbn [fst snd];
+      destruct r1, r2; cbn [opt_rel] in H1; try contradiction; cbn [fst snd opt_rel];
+      [ split; [exact H1|discriminate]
+      | specialize (H2 eq_refl); py_cases; cbn [fst snd opt_rel];
+        try (exfalso; rewrite H2 in *; solve [auto | py_arith]);
+        (split; first [ reflexivity | exact Logic.I | discriminate | intro; rewrite H2; reflexivity
+                      | intro; py_arith | py_arith ]) ]
+    | unfold mc2_rel; cbn [fst snd opt_rel]; split; [exact Logic.I|intro; reflexivity] ]
+  | unfold mc2_rel in H; destruct (fold_left F L s0) as [r1 c1], (fold_left G L t0) as [r2 c2]; cbn [fst snd] in *;
+    destruct H as [H1 H2]; destruct r1, r2; cbn [opt_rel] in H1; try contradiction; cbn [fst snd];
+    first [ exact H1 | reflexivity ] ].
+
+Ltac py_mc2_weak_go :=
+  autounfold with pycanon; py_unfold;
+  match goal with
+  | |- context [fold_left ?F ?L ?s0] =>
+      match goal with
+      | |- context [fold_left ?G L ?t0] =>
+          lazymatch constr:((F, s0)) with
+          | (G, t0) => fail
+          | _ => py_mc2_weak_with F L s0 G t0
+          end
+      end
+  end.
+
+Ltac py_mc2_weak I l B :=
+  py_open; py_unfold; change (fun p : proj => cost I p) with (cost I);
+  first [ solve [ rewrite <- (mc2_canonical (cost I) B l); py_mc2_weak_go ]
+        | solve [ rewrite <- (mc2_canonical_costs (map (cost I) l) B); py_mc2_weak_go ] ].
+
 (* ---------- total_cost: the vocabulary constant [py_total_cost] (= tcost) is what the source computes ---------- *)
 Lemma gen_total_cost_ok : forall I l, gen_total_cost I l == py_total_cost I l.
 Proof. first [ py_gen | intros; unfold gen_total_cost; py_pointwise ]. Qed.
@@ -43,9 +79,16 @@ Lemma gen_max_budget_allocation_cardinality_ok : forall I l B,
   gen_max_budget_allocation_cardinality I l B == py_max_budget_allocation_cardinality I l B.
 Proof.
   first [ py_gen
-        | solve [ py_open; py_unfold; rewrite <- (mc_canonical (cost I) B l); py_fold_rel ]
-        | solve [ py_open; py_unfold; rewrite <- (mc2_canonical (cost I) B l); autounfold with pycanon;
-                  py_unfold; py_fold_rel ] ].
+        | timeout 60 solve [ py_open; py_unfold; rewrite <- (mc_canonical (cost I) B l); py_fold_rel ]
+        | timeout 60 solve [ py_open; py_unfold; rewrite <- (mc2_canonical (cost I) B l); autounfold with pycanon;
+                  py_unfold; py_fold_rel ]
+        | timeout 60 solve [ py_open; py_unfold; change (fun p : proj => cost I p) with (cost I);
+                  rewrite <- (mc2_canonical_costs (map (cost I) l) B);
+                  autounfold with pycanon; py_unfold; py_fold_rel ]
+        | timeout 60 solve [ py_open; py_unfold; change (fun p : proj => cost I p) with (cost I);
+                  rewrite <- (mc2_canonical (cost I) B l); py_mc2_weak_go ]
+        | timeout 60 solve [ py_open; py_unfold; change (fun p : proj => cost I p) with (cost I);
+                  rewrite <- (mc2_canonical_costs (map (cost I) l) B); py_mc2_weak_go ] ].
 Qed.
 
 Lemma gen_max_budget_allocation_cardinality_is_max_card : forall I l B,
